@@ -461,7 +461,37 @@ def weave_fn(src, container, name, nth, opts, subs, mode, sig_only=False):
         sig_end = text.rstrip().rfind(';')
     sig_text = text[:sig_end]
     if ret:
-        m = re.search(r'->\s*', sig_text)
+        # the `->` of the function itself: the one after the parameter list (generic bounds may contain `Fn(..) -> T`)
+        mfn = re.search(r'\bfn\s+' + re.escape(name) + r'\b', sig_text)
+        pos0 = mfn.end() if mfn else 0
+        # skip the generic parameter list, if any
+        k = pos0
+        while k < len(sig_text) and sig_text[k].isspace():
+            k += 1
+        if k < len(sig_text) and sig_text[k] == '<':
+            d = 0
+            while k < len(sig_text):
+                ch = sig_text[k]
+                if ch == '<':
+                    d += 1
+                elif ch == '>' and sig_text[k - 1] != '-':
+                    d -= 1
+                    if d == 0:
+                        k += 1
+                        break
+                k += 1
+        po = sig_text.find('(', k)
+        d = 0
+        pc = po
+        while pc >= 0 and pc < len(sig_text):
+            if sig_text[pc] == '(':
+                d += 1
+            elif sig_text[pc] == ')':
+                d -= 1
+                if d == 0:
+                    break
+            pc += 1
+        m = re.compile(r'->\s*').search(sig_text, pc if po >= 0 else 0)
         if not m:
             raise Undecided('ret given but no return type: %s::%s' % (container, name))
         # return type runs to the where clause or the end of the signature
